@@ -52,7 +52,7 @@ func runC03(seed int64, tier string, sc *Script) map[string]any {
 		panic(err)
 	}
 	defer os.RemoveAll(tmp)
-	cases := 120
+	cases := 180
 	if tier == "thorough" {
 		cases = 4000
 	}
@@ -209,10 +209,27 @@ func runC03(seed int64, tier string, sc *Script) map[string]any {
 				}
 				return o
 			}
+			// artifact types of the start node's own predecessors (a filter that keeps one of them
+			// is the interesting one)
+			var predATs []int
+			for _, p := range u.Nodes {
+				if !stored[p.ID] || specArtifactType(p) == "" {
+					continue
+				}
+				for _, k := range p.Succ {
+					if k == n0 {
+						predATs = append(predATs, atClass[specArtifactType(p)])
+					}
+				}
+			}
 			switch rng.Intn(4) {
 			case 0:
 				if len(atNames) > 0 {
 					filter = fmt.Sprintf("at:%d", 1+rng.Intn(len(atNames)))
+				}
+				if len(predATs) > 0 && rng.Intn(2) == 0 {
+					filter = fmt.Sprintf("at:%d", predATs[rng.Intn(len(predATs))])
+					sc.Count("filter:at-of-a-predecessor")
 				}
 			case 1:
 				filter = fmt.Sprintf("ann:%d", 1+rng.Intn(3))
